@@ -7,7 +7,7 @@ Local Open Scope N_scope.
 Ltac sb := apply safe_bind; [|intros ? _].
 
 Lemma signer_check_safe b : safe (signer_check b). Proof. destruct b; exact I. Qed.
-Lemma nonempty_safe b : safe (nonempty b). Proof. unfold nonempty. destruct (_ =? _); exact I. Qed.
+Lemma nonempty_safe b : safe (nonempty_check b). Proof. unfold nonempty_check. destruct (_ =? _); exact I. Qed.
 Lemma valid_channel_id_check_safe c : safe (valid_channel_id_check c).
 Proof.
   unfold valid_channel_id_check. destruct (is_valid_channel_id_total c) as [b ->]. cbn. destruct b; exact I.
